@@ -292,6 +292,16 @@ class BC2D:
                     return c
         return None
 
+    @staticmethod
+    def by_side(run, bcs, side):
+        """the logged 2-D call for `side`: calc_bc visits the sides in the order of the bc dictionary and calls namedBC for every
+        non-periodic one (the normal the mesh hands over is part of what is checked, so it is not used to identify the call)"""
+        order = [s_ for s_, v in bcs.items() if v["type"] != "per"]
+        calls = [c for c in run if c["two_d"]]
+        if side not in order or len(calls) != len(order):
+            return None
+        return calls[order.index(side)]
+
     def instance(self, c1, k1, c2, k2, smap, dmap):
         """leaf clause bc(name, S n, S W, prm) = S bc(name, n, W, prm), instantiated at positions k1 / k2"""
         n1, w1, o1 = self.at(c1, k1)
@@ -551,7 +561,7 @@ def operator_symmetries(chk):
                     pos2 = {"left": r2, "right": r2, "bottom": c2, "top": c2}
                     pos1 = {"left": r1, "right": r1, "bottom": c1, "top": c1}
                     for s2, s1 in side_map.items():
-                        cc2, cc1 = bcc.by_dir(run2, SIDES[s2]), bcc.by_dir(run1, SIDES[s1])
+                        cc2, cc1 = bcc.by_side(run2, bc2, s2), bcc.by_side(run1, bc1, s1)
                         if cc2 is None and cc1 is None:
                             continue
                         if cc2 is None or cc1 is None:
@@ -680,12 +690,15 @@ def one_dimensional_agreement(chk):
                             # boundary-condition clause instances at the two ends (1-D calls: [left, right])
                             if calls1:
                                 for side, dvec, c1_ in ((end0, SIDES[end0], calls1[0]), (end1, SIDES[end1], calls1[1])):
-                                    cc2 = bcc.by_dir(calls2, dvec)
+                                    cc2 = bcc.by_side(calls2, {k_: v_ for k_, v_ in bc2.items() if not (across(SIDES[k_]))}, side)
+                                    if cc2 is None:
+                                        raise T.EngineError("boundary-condition calls of the 2-D run do not correspond to its sides")
                                     pos = a if alongx else b
                                     nrm2, w2, o2 = bcc.at(cc2, pos)
                                     w1, o1 = c1_["data"], [T.treal(x) for x in c1_["out"]]
                                     d1v = dvec[0] if alongx else dvec[1]
                                     rel = z3.And(*([T.tz(c1_["name"] == cc2["name"]), T.tz(c1_["dir"] == d1v)] +
+                                                   [x == v for x, v in zip(nrm2, dvec)] +
                                                    [y == x for x, y in zip(lift(w1), w2)] +
                                                    [T.treal(cc2["param"].get(k)) == T.treal(v) for k, v in c1_["param"].items() if k != "type"]))
                                     T.cur().add_fact(z3.Implies(rel, z3.And(*[y == x for x, y in zip(lift(o1), o2)])))
@@ -793,3 +806,6 @@ def build(chk):
     c2p_leaves(chk)
     operator_symmetries(chk)
     one_dimensional_agreement(chk)
+    # the 2-D mesh contract the harnesses rely on (index tables, orientations, outward normals handed to the boundary conditions)
+    from . import C20
+    chk.include(C20, r"^mesh2d$", "uses:C20")
